@@ -1523,9 +1523,10 @@ REAL = 'real'
 
 
 def inline_asm(E, st, asm, cons, args):
-    if 'bzhi' in asm:
-        # asm("bzhi %2, %1, %0" : "=r"(ret) : "r"(src), "r"(idx))  -- operand order depends on the source; see itoa/skip
-        raise Inconclusive('inline asm bzhi: ' + asm)
+    if 'bzhil' in asm and '$1, $2' in asm.replace('%', '$'):
+        # __asm__("bzhil %1, %2, %[result]" : "=r"(mask) : "r"((int)s), "r"(mask))   (AT&T: index, source, destination)
+        import llsym_ext
+        return llsym_ext.x86(E, st, 'llvm.x86.bmi.bzhi.32', [args[1], args[0]])
     if asm.strip('"') == '':
         return args[0] if args else None
     raise Inconclusive('inline asm: ' + asm)
